@@ -47,6 +47,8 @@ def _children(typ):
     else:
         for c in U.PATTERN_CHILDREN:
             yield c, False
+        for c in U.PATTERN_CHILDREN_ML:
+            yield c, True
 
 
 def _child_ast(typ, csrc):
